@@ -6,6 +6,7 @@ CONSTANTS
 SPECIFICATION Spec
 INVARIANT TypeOK
 INVARIANT NamesUnique
+INVARIANT SortLaw
 PROPERTY ErrAtomic
 PROPERTY SpellingKept
 PROPERTY PermutationOnly
